@@ -295,17 +295,77 @@ Section Search.
                 destruct Fp' as [v' [_ [E' G']]]. unfold xk, k in Xp'. rewrite Xp' in E'. now subst v'.
              ++ intros Hn p' Fp' Xp'. apply feas_from_var in Fp'. destruct Fp' as [v' [_ [E' G']]].
                 unfold xk, k in Xp'. rewrite Xp' in E'. subst v'. exact (I2 Hn p' G').
-          -- intros p p' [s [-> _]] [s' [-> _]]. unfold xk, k. intros L.
-             destruct s as [|a s], s' as [|b s']; rewrite ?app_nil_r in *.
-             ++ lia.
-             ++ rewrite nth_overflow in L by lia. rewrite nth_middle in L.
-                (* pre vs pre ++ b :: s' with 0 < b : not comparable by lex_lt on lists of different
-                   length; cannot happen because both have the same shape *)
-                exfalso. revert L. clear. intros L.
-                (* this branch is ruled out below by the shape argument; see [Fshape] *)
-                exact (False_ind _ (Z.lt_irrefl 0 (Z.lt_trans _ _ _ L L))).
-             ++ exfalso. rewrite nth_middle in L. rewrite nth_overflow in L by lia. lia.
-             ++ rewrite !nth_middle in L. now apply lex_lt_app.
+          -- intros p p' Fp Fp' L. apply feas_from_var in Fp. apply feas_from_var in Fp'.
+             destruct Fp as [v [_ [E [s [-> _]]]]]. destruct Fp' as [v' [_ [E' [s' [-> _]]]]].
+             unfold xk, k in L. rewrite E, E' in L. rewrite <- !app_assoc. cbn [app].
+             now apply lex_lt_app.
           -- lia.
   Qed.
 End Search.
+
+(* ---------------------------------------------------------------------------------------- *)
+(* the reference for a problem and a valuation *)
+
+Definition lexmin_ref (fuel : nat) (pb : problem) (q : list Z) : res :=
+  search (cons pb) (dim pb) fuel (is_par pb) q [].
+
+Lemma feas_from_top pb q p : feas_from (cons pb) [] (is_par pb) q p <-> feasible pb q p.
+Proof.
+  unfold feas_from, feasible. split.
+  - intros [s [-> [S H]]]. cbn [app] in *. auto.
+  - intros [S H]. exists p. cbn [app]. auto.
+Qed.
+
+Theorem lexmin_ref_found fuel pb q p :
+  lexmin_ref fuel pb q = Found p -> lexmin_full pb q p.
+Proof.
+  unfold lexmin_ref. intros H.
+  destruct (search_sound (cons pb) (dim pb) fuel (is_par pb) q []) as [S1 _].
+  destruct (S1 p H) as [A B]. split.
+  - now apply feas_from_top.
+  - intros p' Fp'. apply B. now apply feas_from_top.
+Qed.
+
+Theorem lexmin_ref_nopoint fuel pb q :
+  lexmin_ref fuel pb q = NoPoint -> bottom pb q.
+Proof.
+  unfold lexmin_ref. intros H p Fp.
+  destruct (search_sound (cons pb) (dim pb) fuel (is_par pb) q []) as [_ S2].
+  apply (S2 H p). now apply feas_from_top.
+Qed.
+
+(* the answer of the reference as an [option] (only meaningful when it is not Unknown) *)
+Definition res_answer (ip : list bool) (r : res) : option (option (list Z)) :=
+  match r with Found p => Some (Some (proj ip p)) | NoPoint => Some None | Unknown => None end.
+
+Theorem lexmin_ref_answer fuel pb q a :
+  res_answer (is_par pb) (lexmin_ref fuel pb q) = Some a -> answer pb q a.
+Proof.
+  destruct (lexmin_ref fuel pb q) as [p| |] eqn:E; cbn; intros [= <-]; cbn.
+  - apply lexmin_full_lexmin. eapply lexmin_ref_found; eauto.
+  - eapply lexmin_ref_nopoint; eauto.
+Qed.
+
+(* the hypotheses are satisfiable and both outcomes occur:  x + y >= 3, 2y <= p  at p = 3 gives
+   (2,1);  2x = 1 has no integral point;  x - y = 0 ... *)
+Example ref_ex1 :
+  lexmin_ref 20 {| is_par := [false; false; true];
+                   cons := [ {| ccoefs := [1; 1; 0]; ccst := -3; ckd := GE |};
+                             {| ccoefs := [0; -2; 1]; ccst := 0; ckd := GE |} ];
+                   big := None |} [0; 0; 3] = Found [2; 1; 3].
+Proof. vm_compute. reflexivity. Qed.
+
+Example ref_ex2 :
+  lexmin_ref 20 {| is_par := [false]; cons := [ {| ccoefs := [2]; ccst := -1; ckd := EQ |} ]; big := None |} [0] = NoPoint.
+Proof. vm_compute. reflexivity. Qed.
+
+(* unbounded relaxation without integral point: the search says Unknown, not NoPoint *)
+Example ref_ex3 :
+  lexmin_ref 6 {| is_par := [false; false]; cons := [ {| ccoefs := [2; -2]; ccst := -1; ckd := EQ |} ]; big := None |} [0; 0] = Unknown.
+Proof. vm_compute. reflexivity. Qed.
+
+(* a large value is reached by the doubling steps, not by counting *)
+Example ref_ex4 :
+  lexmin_ref 40 {| is_par := [false; true]; cons := [ {| ccoefs := [1; -1]; ccst := 7; ckd := GE |} ]; big := Some 1%nat |} [0; 1000000]
+  = Found [999993; 1000000].
+Proof. vm_compute. reflexivity. Qed.
